@@ -329,7 +329,13 @@ def attr_store_scan(ctx, chk):
         for node in ast.walk(f.node):
             if isinstance(node, ast.Attribute) and isinstance(node.ctx, ast.Store) and node.attr in ("pos", "neg"):
                 n += 1
-                if f.qualname in allowed:
+                from .c10 import construction_only, fresh_locals
+                base = node.value
+                if isinstance(base, ast.Name) and base.id != "self" and base.id in fresh_locals(f.node):
+                    chk.hold("R01.4", "store:%s.%s" % (f.qualname, node.attr), "initialises an object created in the same function (%s)" % base.id, nontrivial=False)
+                elif isinstance(base, ast.Name) and base.id == "self" and f.qualname not in allowed and construction_only(ctx.db, f):
+                    chk.hold("R01.4", "store:%s.%s" % (f.qualname, node.attr), "construction helper (only called from constructors / on freshly created objects)", nontrivial=False)
+                elif f.qualname in allowed:
                     chk.hold("R01.4", "store:%s.%s" % (f.qualname, node.attr), "constructor/alias-setter store", nontrivial=False)
                 else:
                     chk.violation("R01.4", f.qualname, "store-outside-constructor:" + node.attr, "assignment to .%s" % node.attr,
